@@ -49,3 +49,33 @@ def run(ctx):
             ctx.violation("doh:" + vlib.fp(o["case"]), "Dial used a TLS ServerName/ECH list not prescribed by the policy (DoH path): " + json.dumps(o),
                           o)
     ctx.notes["doh_cases"] = len(obs)
+    transport_slice(ctx)
+
+
+def transport_slice(ctx):
+    """The server name on the Transport path (Transport hands the URL's host to Dialer.Dial): the cases of Transport.tla in
+    which the caller sets its own Host header - the TLS name must still be the URL's host."""
+    import random
+    r = ctx.tlc("MCTransport", "MCTransport_fn.cfg", timeout=1800, name="tr-fn")
+    if r["violated"] or not r["ok"]:
+        raise vlib.Inconclusive("model-level violation in Transport.tla: %s" % r["violated"])
+    ctx.states += r["distinct"]
+    ctx.transitions += r["generated"]
+    cs = [c for c in vlib.parse_emitted(r["out"]) if any(q.get("hh") for q in c["reqs"])]
+    rnd = random.Random(ctx.seed)
+    rnd.shuffle(cs)
+    cs = cs[:150 if ctx.quick else 1500]
+    f_in, f_out = ctx.path("tr17.ndjson"), ctx.path("tr17-obs.ndjson")
+    vlib.write_ndjson(f_in, cs)
+    rc, out = ctx.go_test("^TestTransportCases$", env={"VH_IN": f_in, "VH_OUT": f_out}, timeout=1500)
+    res = vlib.read_ndjson(f_out)
+    summ = [x for x in res if x.get("summary")]
+    if not summ:
+        raise vlib.Inconclusive("transport driver did not finish:\n" + out[-1500:])
+    ctx.evaluations += len(cs)
+    ctx.traces += len(cs) - summ[0]["bad"]
+    ctx.notes["transport_host_header_cases"] = len(cs)
+    for x in res:
+        if not x.get("summary"):
+            c = x["case"]
+            ctx.violation("transport:" + vlib.fp([c["reqs"], c["recs"], c["h3"]]), "Transport path, requests %s: %s" % (json.dumps(c["reqs"]), x["diff"]), x)
